@@ -3,7 +3,7 @@ SPEC = {'level': 'exploration',
  'assumptions': ['own timelock model (kits/consensus_ref RefTimelocks: nLockTime rule, BIP113 cutoff, BIP68 height/time locks from the ledger\'s own median-time-past, 100-confirmation maturity) is the reference; '
                  'the probe transaction is valid in every other respect by construction (harness keys, no CLTV/CSV opcodes)',
                  'CSV/BIP113 activation = block height >= N for -testactivationheight=csv@N (regtest semantics); chains of 110..140 regtest blocks, time-type locks up to a few 512 s steps'],
- 'stages': [gen('vh_c05', 'c05_timelocks', 560, 9000, min_cases_quick=180,
+ 'stages': [gen('vh_c05', 'c05_timelocks', 560, 9000, min_cases_quick=60, max_seconds_quick=900, max_seconds_thorough=7200,
                 floors={'near-boundary': 0.5, 'accept': 0.4, 'reject:absolute': 0.3, 'reject:maturity': 0.12, 'reject:relative': 0.05, 'rel-time': 0.2, 'rel-height': 0.3,
                         'csv-inactive': 0.1, 're-evaluated': 0.2, 'reorg': 0.15},
                 rule='timelock probes; non-trivial = some probe within 1 unit (block / second / 512 s step / confirmation) of a lock boundary')]}
